@@ -54,6 +54,14 @@ def profile(h=0):
     if h % 4 == 2:  # keys that look like the CSV prefixes, contain blanks or dots
         p.extra_tag_keys = ["a b", "_tag_q", "t_q", "f_q"]
         p.extra_field_keys = ["f_q", "x.y", "_field_q", "t_q"]
+    if h % 20 == 9:  # hundreds of rows: thresholds far beyond a dozen rows, long index arrays, many matches
+        p.max_rows = 700
+        p.max_time_probes = 30
+        p.min_ops, p.max_ops = 3, 7
+    if h % 20 == 13:  # many measurements (prefixes of each other, differing in case / trailing blank), many tag keys and values
+        p.meas = ["m0", "m1", "_default", "m", "m00", "M0", "m0 ", "a", "a/b", "None", "k", "x", "1", "measurement", "m1x"]
+        p.extra_tag_keys = [f"key{i}" for i in range(14)]
+        p.extra_tag_vals = [f"v{i}" for i in range(25)] + ["12", "1.5", "x" * 300]
     if h % 8 == 5:
         p.max_rows = 45
         p.min_ops, p.max_ops = 4, 10
